@@ -42,7 +42,8 @@ def a_count_parser(ctx):
                                ("consume_budget", "enum_narsese::task::budget::Budget", ["new_empty", "new_single", "new_double", "new_triple"])):
         it2 = maps.enum_parser_fn(ctx, fname)
         # names of the float bindings, in order, and of the count, from the destructuring `let ([a, b, ..], count) = parse_separated_floats(..)?`
-        lets = [s for s in hir.walk(it2["body"]) if s.get("k") == "Let" and s["pat"]["k"] == "Tuple" and len(s["pat"]["pats"]) == 2]
+        lets = [s for s in hir.walk(it2["body"]) if s.get("k") == "Let" and s["pat"]["k"] == "Tuple" and len(s["pat"]["pats"]) == 2
+                and s.get("init") is not None and hir.find_calls(s["init"], "parse_separated_floats")]
         order, count_name = [], None
         if lets:
             sl, cn = lets[0]["pat"]["pats"]
